@@ -899,7 +899,7 @@ PROPS = {
     },
     "C18": {
         "property_modules": ["Zlink.Properties.C18"], "lean_modules": ["Zlink.Properties.C18"],
-        "theorems": ["C18.C18_select_min", "C18.C18_scan_is_select", "C18.C18_no_double_service", "C18.C18_phase_bound", "C18.C18_bounded_bypass"],
+        "theorems": ["C18.C18_select_min", "C18.C18_scan_is_select", "C18.C18_server_rotation", "C18.C18_no_double_service", "C18.C18_phase_bound", "C18.C18_bounded_bypass"],
         "run": run_srv_scenarios(["srv-fair"]), "trusted_base": TB_COMMON,
         "assumptions": SRV_ASSUME + [
             "the no-double-service and bounded-bypass theorems are stated over sequences of consecutive scans of an unchanged set of n futures (Sel.winners); that the server's get_next_call is such a scan, and that the next start is winner+1, is proved for one iteration (C18_scan_is_select) and checked over whole runs by the correspondence of the global service order; the composition over full server runs is not a single theorem",
